@@ -34,6 +34,10 @@ def gen_plan(rng, modes, big=False):
             opts["size"] = len(data) if kind != "bad-size" else len(data) + 1
         if decl in ("sri", "both"):
             opts["sri"] = ref.sri(algo, data if kind != "bad-sri" else data + b"!")
+            if kind == "ok" and rng.random() < 0.3:
+                # next to the right hash, a hash of ANOTHER algorithm that is of other data (the writer cannot check it)
+                oa = rng.choice([a for a in ("sha512", "sha384", "sha256", "sha1") if a != algo])
+                opts["sri"] = ref.sri(oa, data + b"?") + " " + opts["sri"]
         rejected = (kind == "bad-size" and "size" in opts) or (kind == "bad-sri" and "sri" in opts)
         nchunks = min(len(data), rng.choice([1, 2, 2, 3]))
         _, lens = gen.chunking(rng, len(data), "random") if nchunks > 1 else ("one", [len(data)])
